@@ -153,7 +153,7 @@ func Load(opt Options) (*Program, error) {
 				// a ground instance of a generic helper has its own body; what it is is decided on the generic function
 				o := g.Origin()
 				_, frozen := FrozenAnchors[paths.FuncName(o)]
-				return !frozen && o.Object() != nil && !o.Object().Exported() && o.Parent() == nil
+				return !frozen && o.Object() != nil && (!o.Object().Exported() || p.isInternalPkg(o)) && o.Parent() == nil
 			}
 			if g.Synthetic != "" || g.Origin() != nil {
 				return false
@@ -161,7 +161,7 @@ func Load(opt Options) (*Program, error) {
 			if paths.TrivialWrapper(g) {
 				return true // forwards to one call: callers see the wrapped call
 			}
-			if g.Object() != nil && g.Object().Exported() {
+			if g.Object() != nil && g.Object().Exported() && !p.isInternalPkg(g) {
 				return false
 			}
 			_, frozen := FrozenAnchors[paths.FuncName(g)]
@@ -698,7 +698,7 @@ func GenAnchors(p *Program) string {
 		if f.Parent() != nil || f.Synthetic != "" || f.Origin() != nil || !p.IsLibrary(f) {
 			continue
 		}
-		if f.Object() == nil || f.Object().Exported() {
+		if f.Object() == nil || (f.Object().Exported() && !p.isInternalPkg(f)) {
 			continue
 		}
 		name := strings.ReplaceAll(strings.ReplaceAll(f.String(), Module+"/", ""), Module, "")
@@ -746,11 +746,17 @@ func (p *Program) IsNewHelper(f *ssa.Function) bool {
 	if f == nil || !p.inMod[f] || f.Synthetic != "" || f.Parent() != nil || f.Origin() != nil || len(f.Blocks) == 0 {
 		return false
 	}
-	if f.Object() == nil || f.Object().Exported() {
+	if f.Object() == nil || (f.Object().Exported() && !p.isInternalPkg(f)) {
 		return false
 	}
 	_, frozen := FrozenAnchors[paths.FuncName(f)]
 	return !frozen
+}
+
+// isInternalPkg tells whether f lives in an internal/ package of the module: its exported functions are not
+// API, a new one is a helper like any unexported function.
+func (p *Program) isInternalPkg(f *ssa.Function) bool {
+	return strings.Contains(p.PkgPathOf(f)+"/", "/internal/")
 }
 
 // Owners gives the confirmed functions an inventory entry of f is attributed to: closures belong to
